@@ -704,7 +704,61 @@ func edgeFactMatches(from *ssa.BasicBlock, k int, m FactM, depth int) bool {
 	if phiOutcomeOnlyThrough(f, m) {
 		return true
 	}
-	return predicateOnlyThrough(f, m, depth)
+	return predicateOnlyThrough(f, m, depth, FactsFor(from.Parent()).At(from))
+}
+
+// returnContradicts: the caller's facts say result j (j != k) of this call is nil (non-nil) while
+// on the way to ret the callee has established the opposite for the value it returns there.
+func returnContradicts(g *ssa.Function, ret *ssa.Return, k int, call *ssa.Call, ctx []Fact) bool {
+	for j := range ret.Results {
+		if j == k {
+			continue
+		}
+		var known string // "nil" / "notnil" as the caller knows result j
+		for _, cf := range ctx {
+			l, r := cf.L, cf.R
+			if l == nil || r == nil {
+				continue
+			}
+			if l.Op == "const" {
+				l, r = r, l
+			}
+			if l.Op == "extract" && l.Call == call && l.Idx == j && r.Op == "const" && r.Name == "nil" {
+				if cf.Op == "==" {
+					known = "nil"
+				} else if cf.Op == "!=" {
+					known = "notnil"
+				}
+			}
+		}
+		if known == "" {
+			continue
+		}
+		rv := Forwarded(ret.Results[j])
+		if c, isC := rv.(*ssa.Const); isC {
+			if c.IsNil() && known == "notnil" {
+				return true
+			}
+			continue
+		}
+		rt := TermOf(rv).String()
+		for _, gf := range FactsFor(g).At(ret.Block()) {
+			if gf.L == nil || gf.R == nil {
+				continue
+			}
+			l, r := gf.L, gf.R
+			if l.Op == "const" {
+				l, r = r, l
+			}
+			if r.Op != "const" || r.Name != "nil" || l.String() != rt {
+				continue
+			}
+			if (gf.Op == "!=" && known == "nil") || (gf.Op == "==" && known == "notnil") {
+				return true
+			}
+		}
+	}
+	return false
 }
 
 // phiOutcomeOnlyThrough: f tests a boolean assembled by && / || (a phi); it matches m when every
@@ -755,7 +809,11 @@ func phiOutcomeOnlyThrough(f Fact, m FactM) bool {
 // predicate can produce that outcome only by passing an edge whose fact matches m (or by the
 // outcome being itself a condition matching m). A guard that was extracted into a boolean helper
 // is then still recognised as that guard.
-func predicateOnlyThrough(f Fact, m FactM, depth int) bool {
+//
+// ctx are the facts already known in the caller where the outcome is tested: a return of the
+// predicate whose OTHER results contradict them (the caller knows `g(...)#1 == nil`, this return
+// hands back an error it has just tested non-nil) cannot be the one that produced the outcome.
+func predicateOnlyThrough(f Fact, m FactM, depth int, ctx []Fact) bool {
 	if f.Op != "==" || f.R == nil || f.R.Op != "const" || (f.R.Name != "true" && f.R.Name != "false") {
 		return false
 	}
@@ -821,6 +879,9 @@ func predicateOnlyThrough(f Fact, m FactM, depth int) bool {
 		for _, in := range b.Instrs {
 			ret, ok := in.(*ssa.Return)
 			if !ok || len(ret.Results) <= resK {
+				continue
+			}
+			if theCall != nil && returnContradicts(g, ret, resK, theCall, ctx) {
 				continue
 			}
 			if !check(Forwarded(ret.Results[resK]), ret, map[*ssa.Phi]bool{}) {
